@@ -105,7 +105,7 @@ def decoy_imports(text: str, added: list[str]) -> str:
     return text.rstrip("\n") + "\n\n\ndef decoy_scope():\n" + body + "\n    return None\n"
 
 
-ARGS = ["asis", "kwspread-last", "kwspread-mid", "extra-kw", "dict-spread", "same-line-pair", "multiline"]
+ARGS = ["asis", "kwspread-last", "kwspread-mid", "extra-kw", "dict-spread", "same-line-pair", "multiline", "list-elements"]
 
 
 def changed_lines(before: str, after: str) -> set[int]:
@@ -182,6 +182,42 @@ def extend_args(text: str, kind: str, lines: set[int]) -> str | None:
                     new[len(args) - 1] = last.with_changes(comma=cst.Comma(whitespace_after=cst.SimpleWhitespace(" ")))
             applied[0] += 1
             return updated_node.with_changes(args=new)
+
+    try:
+        out = wrapper.visit(T()).code
+    except Exception:  # noqa: BLE001
+        return None
+    return out if applied[0] else None
+
+
+def list_elements(text: str, lines: set[int]) -> str | None:
+    """`x = <call>` / `<call>` on one of `lines` becomes a list literal with the call twice, one element per line."""
+    import libcst as cst
+    from libcst.metadata import MetadataWrapper, PositionProvider
+
+    try:
+        wrapper = MetadataWrapper(cst.parse_module(text))
+    except Exception:  # noqa: BLE001
+        return None
+    applied = [0]
+
+    class T(cst.CSTTransformer):
+        METADATA_DEPENDENCIES = (PositionProvider,)
+
+        def leave_SimpleStatementLine(self, original_node, updated_node):
+            pos = self.get_metadata(PositionProvider, original_node)
+            if pos.start.line != pos.end.line or pos.start.line not in lines or len(updated_node.body) != 1:
+                return updated_node
+            st = updated_node.body[0]
+            if isinstance(st, (cst.Expr, cst.Assign)) and isinstance(st.value, cst.Call):
+                nl = cst.ParenthesizedWhitespace(first_line=cst.TrailingWhitespace(newline=cst.Newline()), indent=True, last_line=cst.SimpleWhitespace("    "))
+                end = cst.ParenthesizedWhitespace(first_line=cst.TrailingWhitespace(newline=cst.Newline()), indent=True, last_line=cst.SimpleWhitespace(""))
+                lst = cst.List(
+                    elements=[cst.Element(st.value, comma=cst.Comma(whitespace_after=nl)), cst.Element(st.value, comma=cst.Comma(whitespace_after=end))],
+                    lbracket=cst.LeftSquareBracket(whitespace_after=nl), rbracket=cst.RightSquareBracket())
+                applied[0] += 1
+                return updated_node.with_changes(body=[st.with_changes(value=lst)])
+            return updated_node
 
     try:
         out = wrapper.visit(T()).code
@@ -298,6 +334,8 @@ def apply(text: str, vec: dict, added_imports: list[str] | None = None, expected
             t = same_line_pair(t, lines)
         elif vec["args"] == "multiline":
             t = multiline_parens(t, lines)
+        elif vec["args"] == "list-elements":
+            t = list_elements(t, lines)
         else:
             t = extend_args(t, vec["args"], lines)
         if t is None:
